@@ -53,25 +53,33 @@ Proof.
 Qed.
 
 (* the local write goes through whatever rev id is remembered: at most one corrective round *)
-Lemma set_retry_local_ok d rev h sq :
-  exists r, set_retry retry_attempts SLocal false d rev h sq = (Some (mkDoc r h sq), Some r).
+Lemma set_retry_local_ok2 f d rev h sq :
+  exists r, set_retry (S (S f)) SLocal false d rev h sq = (Some (mkDoc r h sq), Some r).
 Proof.
-  unfold retry_attempts. cbn [set_retry]. unfold put at 1. destruct d as [x|].
+  cbn [set_retry]. unfold put at 1. destruct d as [x|].
   - destruct (rev =? d_rev x) eqn:E; [eexists; reflexivity|].
-    cbn [set_retry rev_of]. unfold put. rewrite N.eqb_refl. eexists; reflexivity.
+    cbn [rev_of]. unfold put. rewrite N.eqb_refl. eexists; reflexivity.
   - destruct (rev =? 0) eqn:E; [eexists; reflexivity|].
-    cbn [set_retry]. unfold put. cbn. eexists; reflexivity.
+    unfold put. cbn. eexists; reflexivity.
 Qed.
 
+Lemma set_retry_local_ok d rev h sq :
+  exists r, set_retry retry_attempts SLocal false d rev h sq = (Some (mkDoc r h sq), Some r).
+Proof. exact (set_retry_local_ok2 8 d rev h sq). Qed.
+
 (* the remote write goes through unless the document is gone while a rev id is remembered *)
-Lemma set_retry_remote_ok d rev h sq : (d <> None \/ rev = 0) ->
-  exists r, set_retry retry_attempts SRemote false d rev h sq = (Some (mkDoc r h sq), Some r).
+Lemma set_retry_remote_ok2 f d rev h sq : (d <> None \/ rev = 0) ->
+  exists r, set_retry (S (S f)) SRemote false d rev h sq = (Some (mkDoc r h sq), Some r).
 Proof.
-  intros Hc. unfold retry_attempts. cbn [set_retry]. unfold put at 1. destruct d as [x|].
+  intros Hc. cbn [set_retry]. unfold put at 1. destruct d as [x|].
   - destruct (rev =? d_rev x) eqn:E; [eexists; reflexivity|].
-    cbn [set_retry rev_of]. unfold put. rewrite N.eqb_refl. eexists; reflexivity.
+    cbn [rev_of]. unfold put. rewrite N.eqb_refl. eexists; reflexivity.
   - destruct Hc as [Hc| ->]; [congruence|]. cbn. eexists; reflexivity.
 Qed.
+
+Lemma set_retry_remote_ok d rev h sq : (d <> None \/ rev = 0) ->
+  exists r, set_retry retry_attempts SRemote false d rev h sq = (Some (mkDoc r h sq), Some r).
+Proof. exact (set_retry_remote_ok2 8 d rev h sq). Qed.
 
 Lemma set_retry_remote_gone fuel rev h sq : rev <> 0 ->
   set_retry fuel SRemote false None rev h sq = (None, None).
